@@ -242,9 +242,323 @@ def pipeline(mlar, rng, work, k, tier):
         sz = os.path.getsize(o2) if os.path.exists(o2) else 0
         if rc == 0 or sz:
             errs.append("key given for an unencrypted archive: to-tar exits with %d and leaves %d bytes in its output file" % (rc, sz))
+        for sub in ("convert", "repair"):
+            o3 = os.path.join(d, "bad_out_%s.mla" % sub)
+            rc, out, err = run(mlar, [sub, "-i", arch] + ka + ["-o", o3, "-l"], d)
+            sz = os.path.getsize(o3) if os.path.exists(o3) else 0
+            if rc == 0 or sz:
+                errs.append("key given for an unencrypted archive: %s exits with %d and leaves %d bytes in its output file" % (sub, rc, sz))
     cls = "enc=%d comp=%d files=%d maxsize=%s convert=%d%d" % (enc, comp, len(files), "big" if max(map(len, files.values())) >= 131072 else "small", enc2, comp2)
     shutil.rmtree(d, ignore_errors=True)
     return meta, errs, cls
+
+
+# ---------------------------------------------------------------------------------------------
+# work package cli17: MODEL-COMPARED cases (fn != ""): the outputs of the real binary in the row
+# encoding of coq/theories/RunC17.v; tools/checklib.py evaluates the Coq command model
+# (Cli.v / Tar.v / CliRepair.v) on the same inputs and diffs.
+
+def B(b):
+    return list(b)
+
+
+SPECIAL_NAMES = [
+    "plain.txt", "dir/inner.bin", "hé世界/ü.txt", "sp ace/na me", "a/b/c/d/e/f",
+    "L" * 101, "d/" + "m" * 100, "n" * 99, "n" * 100, "q/" + "é" * 49 + "x",        # > 100, = 100, cut inside a UTF-8 character
+    "./dot/lead", "dbl//slash", "trail/./mid", "x" * 60 + "/" + "y" * 60,
+    "../in/up.txt", "../in/" + "u" * 100,                                        # `..`: short (dropped by to-tar), long (dangling long-name member)
+]
+
+
+def gen_small(rng, root, n, allow_special):
+    """small input files, names drawn from SPECIAL_NAMES and random ones; returns ordered [(arg path, bytes)]"""
+    files = []
+    pool = list(SPECIAL_NAMES) if allow_special else [x for x in SPECIAL_NAMES if ".." not in x and "//" not in x and "./" not in x]
+    rng.shuffle(pool)
+    for name in pool:
+        if len(files) >= n:
+            break
+        norm = os.path.normpath(os.path.join(root, name))
+        if any(norm == os.path.normpath(os.path.join(root, f)) or norm.startswith(os.path.normpath(os.path.join(root, f)) + "/")
+               or os.path.normpath(os.path.join(root, f)).startswith(norm + "/") for f, _ in files):
+            continue
+        size = rng.choice([0, 1, 5, 63, 64, 65, 511, 512, 513, 700, 999, 1000, 1500])
+        data = rng.randbytes(size) if rng.random() < 0.5 else (b"mla " * (size // 4 + 1))[:size]
+        try:
+            os.makedirs(os.path.dirname(norm), exist_ok=True)
+            with open(norm, "wb") as f:
+                f.write(data)
+        except OSError:
+            continue
+        files.append((name, data))
+    return files
+
+
+def shown_size(text):
+    m = re.fullmatch(r"(\d+) B", text)
+    return int(m.group(1)) if m else 1000
+
+
+def read_listing(mlar, a, kargs, cwd):
+    rc, out, err = run(mlar, ["list", "-i", a] + kargs, cwd)
+    return rc, out.decode("utf8", "surrogateescape").splitlines()
+
+
+def arch_rows(mlar, a, kargs, cwd, cat_names, d):
+    """rows of RunC17.c17_arch / c17_spec from the real binary (archive `a` opens)"""
+    rows = []
+    rc, names = read_listing(mlar, a, kargs, cwd)
+    if rc != 0:
+        return [[0, 1]], ["list failed rc %d" % rc]
+    rows += [[1] + B(n.encode("utf8", "surrogateescape")) for n in names]
+    rc, out, err = run(mlar, ["list", "-vv", "-i", a] + kargs, cwd)
+    vok = 1 if rc == 0 else 0
+    vv = []
+    for line in out.decode("utf8", "surrogateescape").splitlines():
+        m = re.fullmatch(r"(.*) - (.+) \(([0-9a-f]{64})\)", line, re.S)
+        if not m:
+            return rows, ["list -vv line not understood: %r" % line[:80]]
+        vv.append((shown_size(m.group(2)), bytes.fromhex(m.group(3))))
+    cats = []
+    for n in cat_names:
+        rc, out, err = run(mlar, ["cat", "-i", a] + kargs + ["--", n], cwd)
+        cats.append((1 if rc == 0 else 0, out))
+    tarp = os.path.join(d, "mc.tar")
+    if os.path.exists(tarp):
+        os.remove(tarp)
+    rc, out, err = run(mlar, ["to-tar", "-i", a] + kargs + ["-o", tarp], cwd)
+    tarb = open(tarp, "rb").read() if os.path.exists(tarp) else b""
+    return rows, vv, vok, cats, tarb, rc
+
+
+def members_rows(mlar, a, cwd):
+    rc, names = read_listing(mlar, a, [], cwd)
+    if rc != 0:
+        return [[0, 1]]
+    rows = [[0, 0]]
+    for n in names:
+        rc, out, err = run(mlar, ["cat", "-i", a, "--", n], cwd)
+        rows += [[8] + B(n.encode("utf8", "surrogateescape")), [9] + B(out)]
+    return rows
+
+
+def effect(path):
+    if not os.path.exists(path):
+        return 0
+    c = open(path, "rb").read()
+    return 0 if c == b"OLD" else (1 if c == b"" else 2)
+
+
+def fail_rows(mlar, a, kargs, cwd, d, open_status):
+    """[0; open status] and per command [7; exit ok; output effect] with a pre-existing output file holding OLD"""
+    rows = [[0, open_status]]
+    o = os.path.join(d, "fx.out")
+
+    def pre():
+        with open(o, "wb") as f:
+            f.write(b"OLD")
+    rc, out, err = run(mlar, ["list", "-i", a] + kargs, cwd)
+    rows.append([7, 1 if rc == 0 else 0, 0 if not out else 2])
+    pre()
+    rc, out, err = run(mlar, ["cat", "-i", a] + kargs + ["-o", o, "--", "x"], cwd)
+    rows.append([7, 1 if rc == 0 else 0, effect(o)])
+    rc, out, err = run(mlar, ["cat", "-i", a] + kargs + ["--", "x"], cwd)
+    rows.append([7, 1 if rc == 0 else 0, 0 if not out else 2])
+    for sub, extra in (("to-tar", []), ("convert", ["-l"]), ("repair", ["-l"])):
+        pre()
+        rc, out, err = run(mlar, [sub, "-i", a] + kargs + ["-o", o] + extra, cwd)
+        rows.append([7, 1 if rc == 0 else 0, effect(o)])
+    return rows
+
+
+def model_cases(mlar, rng, work, tier, f):
+    n_arch = 40 if tier == "thorough" else 9
+    n_spec = 40 if tier == "thorough" else 6
+    key0 = os.path.join(SAMPLES, KEYS[0][0])
+    k = 0
+    # ---- (a) layer-less archives: the model reads the real archive bytes
+    for i in range(n_arch):
+        d = os.path.join(work, "m%d" % i)
+        shutil.rmtree(d, ignore_errors=True)
+        src = os.path.join(d, "in")
+        os.makedirs(src)
+        files = gen_small(rng, src, rng.randint(1, 4), allow_special=True)
+        args = [n for n, _ in files]
+        if i % 3 == 0:   # an absolute name: "./" is put in front by to-tar
+            ap = os.path.join(src, "abs_%d.txt" % i)
+            data = b"absolute %d" % i
+            open(ap, "wb").write(data)
+            files.append((ap, data))
+            args.append(ap)
+        arch = os.path.join(d, "p.mla")
+        rc, out, err = run(mlar, ["create", "-l", "-o", arch, "--"] + args, src)
+        cls = "model plain files=%d long=%d dotdot=%d abs=%d" % (len(files), any(len(n.encode()) > 100 for n in args), any(".." in n for n in args), i % 3 == 0)
+        if rc != 0:
+            f.write(json.dumps({"id": "c17-m-%d" % i, "fn": "", "args": [], "impl": [], "oracle_ok": False, "oracle_msg": "create -l failed rc %d: %s" % (rc, err[-200:].decode("utf8", "replace")),
+                                "class": cls, "nontrivial": True, "meta": {"names": args}}) + "\n")
+            continue
+        ab = open(arch, "rb").read()
+        cat_names = args[:3] + ["no-such-name"]
+        r = arch_rows(mlar, arch, [], src, cat_names, d)
+        if len(r) == 2:
+            impl, msgs = r
+            ok = False
+        else:
+            rows, vv, vok, cats, tarb, rct = r
+            impl = [[0, 0]] + rows
+            for sz, h in vv:
+                impl += [[2, sz], [3] + B(h)]
+            impl += [[2, vok]]
+            for okc, outc in cats:
+                impl += [[4, okc], [5] + B(outc)]
+            impl += [[6] + B(tarb)]
+            # the property's oracle on this pipeline: names listed == names given; cat gives the bytes
+            msgs = []
+            want = {n.encode("utf8", "surrogateescape"): dta for n, dta in files}
+            if sorted(bytes(x[1:]) for x in rows) != sorted(want):
+                msgs.append("list does not give exactly the paths given")
+            for (okc, outc), n in zip(cats, cat_names):
+                if n in dict(files) and (okc != 1 or outc != dict(files)[n]):
+                    msgs.append("cat %r does not return the file's bytes" % n[:40])
+            ok = not msgs
+        # model row for sizes: shown exactly only below 1000 bytes
+        f.write(json.dumps({"id": "c17-m-%d" % i, "fn": "c17_arch", "args": [B(ab), 0, [B(n.encode("utf8", "surrogateescape")) for n in cat_names]],
+                            "impl": impl, "oracle_ok": ok, "oracle_msg": "; ".join(msgs[:3]), "class": cls, "nontrivial": True,
+                            "meta": {"names": args, "archive_bytes": len(ab)}}) + "\n")
+        # convert / repair into a layer-less archive: members of the new archive
+        for sub in ("convert", "repair"):
+            o = os.path.join(d, sub + ".mla")
+            rc, out, err = run(mlar, [sub, "-i", arch, "-o", o, "-l"], src)
+            impl2 = ([[7, 1, 2]] + members_rows(mlar, o, src)) if rc == 0 else [[7, 0, effect(o)]]
+            want_rows = [[7, 1, 2], [0, 0]]
+            for n in sorted(set(nn.encode("utf8", "surrogateescape") for nn, _ in files)):
+                want_rows += [[8] + B(n), [9] + B(dict((a_.encode("utf8", "surrogateescape"), b_) for a_, b_ in files)[n])]
+            okm = impl2 == want_rows
+            f.write(json.dumps({"id": "c17-m-%d-%s" % (i, sub), "fn": "c17_" + sub, "args": [B(ab), 0], "impl": impl2, "oracle_ok": okm,
+                                "oracle_msg": "" if okm else "%s of the intact archive does not give back each file's bytes" % sub,
+                                "class": "model %s plain" % sub, "nontrivial": True, "meta": {"names": args}}) + "\n")
+        # (a) `cat -o FILE` / `to-tar -o FILE` where FILE exists and is LONGER than the new output: exactly the new output
+        if len(r) != 2:
+            msgs_t = []
+            big = os.path.join(d, "longer.out")
+            n0, d0 = files[0]
+            with open(big, "wb") as fh:
+                fh.write(b"Z" * (len(d0) + 70000))
+            rc, out, err = run(mlar, ["cat", "-i", arch, "-o", big, "--", n0], src)
+            got = open(big, "rb").read()
+            if rc != 0 or got != d0:
+                msgs_t.append("cat -o onto a longer existing file leaves %d bytes (rc %d), the member has %d" % (len(got), rc, len(d0)))
+            with open(big, "wb") as fh:
+                fh.write(b"Z" * (len(tarb) + 70000))
+            rc, out, err = run(mlar, ["to-tar", "-i", arch, "-o", big], src)
+            got = open(big, "rb").read()
+            if rc != 0 or got != tarb:
+                msgs_t.append("to-tar -o onto a longer existing file leaves %d bytes (rc %d), a fresh run writes %d" % (len(got), rc, len(tarb)))
+            f.write(json.dumps({"id": "c17-m-%d-trunc" % i, "fn": "", "args": [], "impl": [], "oracle_ok": not msgs_t, "oracle_msg": "; ".join(msgs_t),
+                                "class": "output onto a longer existing file", "nontrivial": True, "meta": {"name": n0, "tar_bytes": len(tarb)}}) + "\n")
+        # a key given for this archive (not encrypted): open_mla_file refuses; what exists afterwards
+        if i % 2 == 0:
+            impl3 = fail_rows(mlar, arch, ["-k", key0], src, d, 1)
+            # oracle (property text): non-zero status and no output content for the commands that go through open_mla_file
+            # all six commands, `repair` included (open_failsafe_mla_file has the same key policy since 9ea79db)
+            bad = [j for j, rw in enumerate(impl3[1:]) if rw[1] != 0 or rw[2] == 2]
+            f.write(json.dumps({"id": "c17-m-%d-keyplain" % i, "fn": "c17_fail", "args": [B(ab), 1], "impl": impl3, "oracle_ok": not bad,
+                                "oracle_msg": "" if not bad else "key given for an unencrypted archive: command #%d exits 0 or leaves output content" % bad[0],
+                                "class": "model key-on-unencrypted", "nontrivial": True,
+                                "meta": {"note": "rows: list, cat -o, cat, to-tar, convert, repair"}}) + "\n")
+        shutil.rmtree(d, ignore_errors=True)
+    # ---- `create <dir>` where the directory holds a symbolic link to a regular file whose content is longer than the
+    # link's target path: the member stored for the link has the file's full bytes (as when the link is given explicitly)
+    for i in range(3 if tier == "thorough" else 1):
+        d = os.path.join(work, "ln%d" % i)
+        shutil.rmtree(d, ignore_errors=True)
+        src = os.path.join(d, "in")
+        os.makedirs(os.path.join(src, "ld"))
+        data = rng.randbytes(rng.choice([300, 777, 2500]))
+        open(os.path.join(src, "ld", "real.bin"), "wb").write(data)
+        os.symlink("real.bin", os.path.join(src, "ld", "lnk"))          # target path: 8 bytes
+        other = b"explicit " * 40
+        open(os.path.join(src, "t.dat"), "wb").write(other)
+        os.symlink("t.dat", os.path.join(src, "l2"))                    # a link given explicitly
+        files = [("ld/real.bin", data), ("ld/lnk", data), ("l2", other)]
+        arch = os.path.join(d, "p.mla")
+        rc, out, err = run(mlar, ["create", "-l", "-o", arch, "--", "ld", "l2"], src)
+        cls = "model plain dir-with-symlink"
+        if rc != 0:
+            f.write(json.dumps({"id": "c17-ln-%d" % i, "fn": "", "args": [], "impl": [], "oracle_ok": False, "oracle_msg": "create of a directory with a symbolic link failed rc %d" % rc,
+                                "class": cls, "nontrivial": True, "meta": {}}) + "\n")
+            continue
+        ab = open(arch, "rb").read()
+        cat_names = ["ld/lnk", "ld/real.bin", "l2"]
+        r = arch_rows(mlar, arch, [], src, cat_names, d)
+        msgs = []
+        if len(r) == 2:
+            impl, msgs = r
+        else:
+            rows, vv, vok, cats, tarb, rct = r
+            impl = [[0, 0]] + rows
+            for sz, h in vv:
+                impl += [[2, sz], [3] + B(h)]
+            impl += [[2, vok]]
+            for okc, outc in cats:
+                impl += [[4, okc], [5] + B(outc)]
+            impl += [[6] + B(tarb)]
+            if sorted(bytes(x[1:]) for x in rows) != sorted(n.encode() for n, _ in files):
+                msgs.append("list does not give exactly the paths of the directory walk")
+            for (okc, outc), n in zip(cats, cat_names):
+                if okc != 1 or outc != dict(files)[n]:
+                    msgs.append("member %r stored for a symbolic link has %d bytes, the file it points to has %d" % (n, len(outc), len(dict(files)[n])))
+        f.write(json.dumps({"id": "c17-ln-%d" % i, "fn": "c17_arch", "args": [B(ab), 0, [B(n.encode()) for n in cat_names]], "impl": impl,
+                            "oracle_ok": not msgs, "oracle_msg": "; ".join(msgs[:3]), "class": cls, "nontrivial": True,
+                            "meta": {"names": [n for n, _ in files], "archive_bytes": len(ab)}}) + "\n")
+        shutil.rmtree(d, ignore_errors=True)
+    # ---- (b) any layers: what the theorems say for an archive made by create from these files
+    for i in range(n_spec):
+        d = os.path.join(work, "s%d" % i)
+        shutil.rmtree(d, ignore_errors=True)
+        src = os.path.join(d, "in")
+        os.makedirs(src)
+        files = gen_small(rng, src, rng.randint(1, 4), allow_special=True)
+        args = [n for n, _ in files]
+        enc = i % 2 == 0
+        comp = i % 3 != 0
+        keyset = rng.sample(KEYS, rng.randint(1, 2)) if enc else []
+        arch = os.path.join(d, "l.mla")
+        cargs = ["create", "-o", arch] + layer_args(enc, comp)
+        for _, pub in keyset:
+            cargs += ["-p", os.path.join(SAMPLES, pub)]
+        rc, out, err = run(mlar, cargs + ["--"] + args, src)
+        cls = "model spec enc=%d comp=%d files=%d" % (enc, comp, len(files))
+        if rc != 0:
+            f.write(json.dumps({"id": "c17-s-%d" % i, "fn": "", "args": [], "impl": [], "oracle_ok": False, "oracle_msg": "create failed rc %d" % rc,
+                                "class": cls, "nontrivial": True, "meta": {"names": args}}) + "\n")
+            continue
+        kargs = ["-k", os.path.join(SAMPLES, keyset[-1][0])] if enc else []
+        cat_names = args[:2] + ["no-such-name"]
+        r = arch_rows(mlar, arch, kargs, src, cat_names, d)
+        if len(r) == 2:
+            impl, msgs = r
+        else:
+            rows, vv, vok, cats, tarb, rct = r
+            impl = list(rows)
+            for sz, h in vv:
+                impl += [[2, sz], [3] + B(h)]
+            for okc, outc in cats:
+                impl += [[4, okc], [5] + B(outc)]
+            impl += [[6] + B(tarb)]
+            msgs = []
+        f.write(json.dumps({"id": "c17-s-%d" % i, "fn": "c17_spec",
+                            "args": [[[B(n.encode("utf8", "surrogateescape")), B(dta)] for n, dta in files], [[B(n.encode("utf8", "surrogateescape"))] for n in cat_names], 1],
+                            "impl": impl, "oracle_ok": not msgs, "oracle_msg": "; ".join(msgs[:3]), "class": cls, "nontrivial": True,
+                            "meta": {"names": args, "recipients": [x[1] for x in keyset]}}) + "\n")
+        if enc:
+            ab = open(arch, "rb").read()
+            impl3 = fail_rows(mlar, arch, [], src, d, 1)
+            bad = [j for j, rw in enumerate(impl3[1:]) if rw[1] != 0 or rw[2] == 2]
+            f.write(json.dumps({"id": "c17-s-%d-nokey" % i, "fn": "c17_fail", "args": [B(ab), 0], "impl": impl3, "oracle_ok": not bad,
+                                "oracle_msg": "" if not bad else "no key for an encrypted archive: command #%d exits 0 or leaves output content" % bad[0],
+                                "class": "model missing-key", "nontrivial": True, "meta": {"note": "rows: list, cat -o, cat, to-tar, convert, repair"}}) + "\n")
+        shutil.rmtree(d, ignore_errors=True)
 
 
 def main():
@@ -261,6 +575,7 @@ def main():
                 meta, errs, cls = {"pipeline": k}, ["a command did not finish within its time limit: %s" % e.cmd[:3]], "timeout"
             f.write(json.dumps({"id": "c17-%d" % k, "fn": "", "args": [], "impl": [], "oracle_ok": not errs, "oracle_msg": "; ".join(errs[:3]),
                                 "class": cls, "nontrivial": True, "meta": meta}) + "\n")
+        model_cases(mlar, random.Random(int(seed) * 104729 + 5), os.path.join(work, "model"), tier, f)
 
 
 if __name__ == "__main__":
